@@ -234,6 +234,54 @@ def build_object(cfg: dict):
     return cls(cfg["nx"], cfg["pf"], cfg["pi"], fp), fp, tab
 
 
+def level_events(kind: str, fp, time, u: np.ndarray, pf_series, tid: int, flagged: int = 0, max_levels: int = 400,
+                 want_residual: bool = True) -> tuple[list[dict], dict]:
+    """SchemeTrace Run/Level events of one finished simulation (stored field u, the time grid it was run on, the frac-face
+    pressure series it was given; fp: the FlowProperties of the run, None for the ideal class)."""
+    time = np.asarray(time)
+    nt, nx = u.shape
+    if kind == "ideal":
+        lo, hi, m_i = 0.0, 1.0, 1.0
+        mf_series = np.zeros(nt)
+        rho_min = 1.0
+        constdd = True
+    else:
+        m_i = float(fp.m_i)
+        pf_series = np.asarray(pf_series, dtype=float)
+        mf_series = np.asarray(fp.m_scaled_func(pf_series), dtype=float)
+        lo, hi = float(mf_series.min()), m_i
+        al = np.asarray(fp.pvt_props["alpha"], dtype=float)
+        al = al[np.isfinite(al)]
+        rho_min = float(al.min() / float(fp.alpha(m_i)))
+        constdd = bool(np.all(pf_series == pf_series[0]))
+    events = [{"tid": tid, "seq": 0, "ev": "Run", "kind": kind, "nx": nx, "constdd": constdd}]
+    # which levels to log
+    if nt <= max_levels:
+        levels = list(range(nt))
+    else:
+        head = list(range(50))
+        tail = list(range(nt - 50, nt))
+        mid = np.linspace(50, nt - 51, max_levels - 100).astype(int).tolist()
+        levels = sorted(set(head + mid + tail))
+    worst_resid = 0.0
+    seq = 0
+    for i in levels:
+        seq += 1
+        resid = -1
+        if i > 0 and want_residual and time.dtype != np.float32:   # float32 grids: the step is only float32-accurate
+            be = step_backward_error(fp, kind, m_i, time[i] - time[i - 1], u[i - 1], u[i])
+            worst_resid = max(worst_resid, be)
+            resid = quant.e15_of(be)
+        relax = min(2 * 10**9, int(math.floor(1000.0 * rho_min * max(0.0, float(time[i] - time[0])))))
+        events.append({"tid": tid, "seq": seq, "ev": "Level", "i": i, "mf": quant.q(mf_series[i], lo, hi),
+                       "u": quant.qs(u[i], lo, hi), "resid": resid,
+                       "loose": bool(i == levels[-1] and flagged > 0), "relaxE": relax})
+    raw = {"levels_logged": len(levels), "nt": nt, "worst_backward_error": worst_resid,
+           "min_rel": float((u.min() - lo) / (hi - lo)), "max_rel": float((u.max() - lo) / (hi - lo)),
+           "solver_calls_flagged": flagged}
+    return events, raw
+
+
 def run_config(cfg: dict, tid: int, max_levels: int = 400, want_residual: bool = True) -> tuple[list[dict], dict]:
     """Simulate one configuration on the real code and return SchemeTrace events + raw summary."""
     rng = np.random.default_rng(cfg["seed"])
@@ -267,48 +315,10 @@ def run_config(cfg: dict, tid: int, max_levels: int = 400, want_residual: bool =
             obj.simulate(time)
         else:
             obj.simulate(time, sched)
-    u = np.asarray(obj.pseudopressure, dtype=float)
-    nt, nx = u.shape
-    if kind == "ideal":
-        lo, hi, m_i = 0.0, 1.0, 1.0
-        mf_series = np.zeros(nt)
-        rho_min = 1.0
-    else:
-        m_i = float(fp.m_i)
-        pf_series = np.full(nt, cfg["pf"]) if sched is None else np.asarray(sched, dtype=float)
-        mf_series = np.asarray(fp.m_scaled_func(pf_series), dtype=float)
-        lo, hi = float(mf_series.min()), m_i
-        al = np.asarray(fp.pvt_props["alpha"], dtype=float)
-        al = al[np.isfinite(al)]
-        rho_min = float(al.min() / float(fp.alpha(m_i)))
-    constdd = bool(sched is None or np.all(np.asarray(sched) == np.asarray(sched)[0]))
-    if kind == "single" and sched is not None and constdd and sched[0] != cfg["pf"]:
-        pass
-    events = [{"tid": tid, "seq": 0, "ev": "Run", "kind": kind, "nx": nx, "constdd": constdd}]
-    # which levels to log
-    if nt <= max_levels:
-        levels = list(range(nt))
-    else:
-        head = list(range(50))
-        tail = list(range(nt - 50, nt))
-        mid = np.linspace(50, nt - 51, max_levels - 100).astype(int).tolist()
-        levels = sorted(set(head + mid + tail))
-    worst_resid = 0.0
-    seq = 0
-    for i in levels:
-        seq += 1
-        resid = -1
-        if i > 0 and want_residual and time.dtype != np.float32:   # float32 grids: the step is only float32-accurate
-            be = step_backward_error(fp, kind, m_i, time[i] - time[i - 1], u[i - 1], u[i])
-            worst_resid = max(worst_resid, be)
-            resid = quant.e15_of(be)
-        relax = min(2 * 10**9, int(math.floor(1000.0 * rho_min * max(0.0, float(time[i] - time[0])))))
-        events.append({"tid": tid, "seq": seq, "ev": "Level", "i": i, "mf": quant.q(mf_series[i], lo, hi),
-                       "u": quant.qs(u[i], lo, hi), "resid": resid,
-                       "loose": bool(i == levels[-1] and flags.bad > 0), "relaxE": relax})
-    raw = {"cfg": cfg, "levels_logged": len(levels), "nt": nt, "worst_backward_error": worst_resid,
-           "min_rel": float((u.min() - lo) / (hi - lo)), "max_rel": float((u.max() - lo) / (hi - lo)),
-           "solver_calls_flagged": flags.bad}
+    pf_series = None if kind == "ideal" else (np.full(len(time), cfg["pf"]) if sched is None else np.asarray(sched, dtype=float))
+    events, raw = level_events(kind, fp, time, np.asarray(obj.pseudopressure, dtype=float), pf_series, tid, flags.bad,
+                               max_levels, want_residual)
+    raw["cfg"] = cfg
     return events, raw, obj, fp, tab, time, sched
 
 
